@@ -176,6 +176,42 @@ def timed_fits(ck, xr, cases, meta):
         judge_fit(ck, xr, rec, model, desc, cases, meta, time_limited=True)
 
 
+def boundary_fits(ck, xr, cases, meta):
+    """Nodes with EXACTLY max_leaf_size rows (n = L*2^k, and the odd neighbours 2L-1, 4L-3 whose floor/ceil halves hit L): they are leaves — "every leaf is trained on
+    at most max_leaf_size samples" and, with zero overlap and no quota, no leaf is deeper than ceil(log2(n/L)).  The bound is given under both of its names
+    (`max_leaf_size` and the deprecated alias `min_subset_size`); index arithmetic decides the combination, the seed only the numbers."""
+    rng = np.random.default_rng(ck.seed + 60619)
+    for i in range(ck.n(12, 60)):
+        L = [4, 5, 8, 16, 11, 23][i % 6]
+        k = 1 + (i // 2) % 3
+        n = [L * 2 ** k, 2 ** k * (L - 1) + 1, L * 2 ** k + 1, L][(i // 6) % 4 if i >= 6 else 0]      # the first six: exactly L * 2^k under both names
+        alias = i % 2 == 0
+        method = SPLIT_METHODS[(i * 3) % len(SPLIT_METHODS)]
+        kind = DATA_KINDS[i % len(DATA_KINDS)]
+        d = 4 if kind == 'constcol' else int(rng.integers(2, 5))
+        task = ['reg', 'class'][i % 2]
+        X = xr.make_X(kind, n, d, rng); y = xr.make_y(task, X, rng)
+        nv = int(rng.integers(8, 30))
+        Xv = xr.make_X('random' if kind != 'integer' else 'integer', nv, d, rng); yv = xr.make_y(task, Xv, rng)
+        kw = {}
+        if method == 'fixed_vector':
+            kw['fixed_vector'] = torch.tensor(rng.standard_normal(d), dtype=torch.float32)
+        tree_iters = 1 if method == 'random_global_agop' else 0
+        xr.seed_all(int(rng.integers(0, 2 ** 31)))
+        model = xr.xRFM(rfm_params=xr.default_rfm_params(iters=(1 if tree_iters else 0), reg=1e-2), **(dict(min_subset_size=L) if alias else dict(max_leaf_size=L)),
+                        split_method=method, overlap_fraction=0.0, verbose=False, use_temperature_tuning=False, n_trees=1, n_tree_iters=tree_iters,
+                        refill_size=int(rng.integers(1, 8)), **kw)
+        Lm = int(model.max_leaf_size)
+        rec = xr.fit_recorded(model, torch.tensor(X), torch.tensor(y), torch.tensor(Xv), torch.tensor(yv), timeout=120, tolerate_empty_val=True)
+        desc = dict(kind='fit', i=f'b{i}', n=n, L=Lm, f=0.0, quota=None, method=method, data=kind, d=d, task=task, n_trees=1, tree_iters=tree_iters,
+                    bound_given_as=('min_subset_size' if alias else 'max_leaf_size'), seed=ck.seed)
+        ck.count('fits with a node of exactly max_leaf_size rows' + (' (bound given as min_subset_size)' if alias else ''))
+        if Lm != L:
+            ck.violation(f'the leaf bound read back from the model is {Lm}, {L} was configured, on {desc}', dict(desc), key=json.dumps(dict(site='leaf-bound-readback')))
+            continue
+        judge_fit(ck, xr, rec, model, desc, cases, meta)
+
+
 def run(ck):
     from harness import xr
     ck.rule = ('cases = (a) every (f, n) of the real _get_balanced_split on n projections, compared with the Coq counts; '
@@ -332,6 +368,9 @@ def run(ck):
     # ---- (b') real fits WITH A TIME LIMIT: the statement is unconditional in the options, so a configured (and spent) time budget may shorten the
     # leaf models' training and the loop over trees, but it must not change which rows a leaf is trained on ----
     timed_fits(ck, xr, cases, meta)
+
+    # ---- (b'') nodes of exactly max_leaf_size rows, the bound given under either of its two names ----
+    boundary_fits(ck, xr, cases, meta)
 
     res = ck.run_bool_cases('fits', HEADER, cases, shard=50)
     bad = [meta[k] for k, v in res.items() if v is not True]
